@@ -38,7 +38,7 @@ type Case struct {
 
 func sp(s string) *string { return &s }
 
-var valueWords = []string{"A", "ABC", "Abc", "abc ", " abc", "a", "abc", "x1", "é", "日本", "10", "-1", "p:q", "urn:x", "a.b", ";", "{", "}", "+", "'", "\"", "\\", "/* c */", "// c", "=", "*", "+5"}
+var valueWords = []string{"A", "ABC", "Abc", "abc ", " abc", "a", "abc", "x1", "é", "日本", "10", "-1", "p:q", "urn:x", "a.b", ";", "{", "}", "+", "'", "\"", "\\", "/* c */", "// c", "=", "*", "+5", "\\d+", "\\n", "\\t", "C:\\dir", "\\\\", "\t", "\\\""}
 
 func genValue(g *yg.G) string {
 	if g.Pick(4, "shortval") == 0 {
@@ -106,6 +106,35 @@ func genData(g *yg.G, depth int, idx *int) *A {
 			l.Kids = append(l.Kids, genData(g, depth-1, idx))
 		}
 		return l
+	case k == 3 && g.Pick(2, "choice") == 0:
+		// choice mixing shorthand cases, explicit cases and other substatements in any order
+		ch := &A{Kw: "choice", Val: sp(name)}
+		n := 1 + g.Pick(5, "nchoice")
+		for i := 0; i < n; i++ {
+			*idx++
+			cn := fmt.Sprintf("%s%d", ident(g, "cname"), *idx)
+			switch g.Pick(6, "choicekid") {
+			case 0, 1:
+				ch.Kids = append(ch.Kids, &A{Kw: "leaf", Val: sp(cn), Kids: []*A{{Kw: "type", Val: sp("string")}}})
+			case 2:
+				ch.Kids = append(ch.Kids, &A{Kw: "container", Val: sp(cn)})
+			case 3, 4:
+				cs := &A{Kw: "case", Val: sp(cn)}
+				if g.Pick(2, "casebody") == 0 {
+					*idx++
+					cs.Kids = append(cs.Kids, &A{Kw: "leaf", Val: sp(fmt.Sprintf("%s%d", ident(g, "cleaf"), *idx)), Kids: []*A{{Kw: "type", Val: sp("string")}}})
+				}
+				ch.Kids = append(ch.Kids, cs)
+			default:
+				ch.Kids = append(ch.Kids, genExt(g, 1))
+			}
+		}
+		if g.Pick(2, "chdesc") == 0 {
+			pos := g.Pick(len(ch.Kids)+1, "chdescpos")
+			d := mkstr("description")
+			ch.Kids = append(ch.Kids[:pos], append([]*A{d}, ch.Kids[pos:]...)...)
+		}
+		return ch
 	default:
 		return genExt(g, 2)
 	}
@@ -249,10 +278,10 @@ func genCase(t *rapid.T) Case {
 }
 
 type flat struct {
-	kw, val    string
-	hasArg     bool
-	depth, nk  int
-	line, col  int
+	kw, val   string
+	hasArg    bool
+	depth, nk int
+	line, col int
 }
 
 func walk(n parse.Node, depth int, out *[]flat) string {
@@ -269,6 +298,16 @@ func walk(n parse.Node, depth int, out *[]flat) string {
 	f.col, _ = strconv.Atoi(strings.TrimSpace(parts[1]))
 	*out = append(*out, f)
 	for _, c := range n.Children() {
+		// a data node written directly under a choice is reported inside an implicit case of the same name
+		// at the same position: the wrapper is not a source statement, its content is
+		if n.Statement() == "choice" && c.Statement() == "case" && len(c.Children()) == 1 {
+			in := c.Children()[0]
+			cl, _ := c.ErrorContext()
+			il, _ := in.ErrorContext()
+			if strings.SplitN(cl, ": ", 2)[0] == strings.SplitN(il, ": ", 2)[0] && in.Statement() != "case" && c.Argument().String() == in.Argument().String() {
+				c = in
+			}
+		}
 		if msg := walk(c, depth+1, out); msg != "" {
 			return msg
 		}
